@@ -104,6 +104,15 @@ def unit_use_positions(eng):
         a, b = res[2 * i], res[2 * i + 1]
         if (a["status"], a.get("code_hex")) != (b["status"], b.get("code_hex")):
             (known if u in bare and "D44" in common.ACTIVE_FINDINGS else bad).append((u, [a["status"], a.get("code_hex")], [b["status"], b.get("code_hex"), [d[1] for d in b.get("diags", [])][:1]]))
+    # the same with a second linked file and '.extern all': every placement of the definition in its file gives the same outcome (duplicate-symbol where the
+    # other file exports the name, the same bytes where it does not)
+    for first in ("k == 1\n.word k\n", "j == 1\n.word j\n", "k:: .word k\n"):
+        places = ["k = 2\n.extern all\n.word k\n", ".extern all\nk = 2\n.word k\n", ".extern all\n.word k\nk = 2\n", "k = 2\n.word k\n.extern all\n"]
+        rs = driver.native([{"kind": "asm", "sources": [first, p_]} for p_ in places] + [{"kind": "asm", "sources": [p_, first]} for p_ in places], driver.tree_root())
+        for half in (rs[:len(places)], rs[len(places):]):
+            outs = [(r_["status"], r_.get("code_hex")) for r_ in half]
+            if len(set(outs)) != 1:
+                bad.append((first, "placements of 'k = 2' around '.extern all' differ", outs))
     status = "failed" if bad else ("known-region" if known else "proved")
     ob = dict(label="a-constant-used-in-each-kind-of-position-gives-the-same-bytes-and-outcome-defined-before-or-after-the-use", kind="rac", status=status, secs=0.0, path=[], witness=None,
               detail=str(dict(new=bad[:4], known_D44=known[:2])), events=[], smt2=None, backend="cpython-native", unit="use-positions-rac", func="Compiler (run-time check)", cases=len(jobs),
@@ -128,6 +137,9 @@ def units(tier):
     for what in ("label", "assignment"):
         for local in ((False, True) if what == "label" else (False,)):
             us.append(("define[%s,%s]" % (what, local), "unit_define", dict(what=what, local=local, is_extern=False, extern_all=False)))
+    # '.extern all' exports what the file has defined so far: whether a definition stands above or below it must not change the outcome
+    for sh in [("sym",), ("all",), ("sym", "all"), ("all", "sym")]:
+        us.append((".extern[%s]" % ",".join(sh), "unit_extern", dict(shape=sh)))
     for mode in ("value", "not_ready", "RecoverableError"):
         us.append(("construct[%s]" % mode, "unit_construct", dict(mode=mode, sized=False)))
     for n in ("add", "sub", "mul", "div", "lshift", "and_"):
